@@ -1,6 +1,6 @@
 (* Proofs/MergeProofs.v — lemmas about Algo/Merge.v (the model of typify's allOf
    merge) and Check/Uninhabited.v. *)
-From Coq Require Import String ZArith NArith QArith List Bool Lia Permutation.
+From Coq Require Import String ZArith NArith QArith List Bool Lia Permutation Btauto.
 From Typify Require Import Base.Json Spec.Schema Spec.Valid IR.TypeIR IR.Serde
      Algo.Merge Check.Uninhabited Proofs.ValidProofs.
 Import ListNotations.
@@ -198,8 +198,8 @@ Qed.
 Lemma enum_of_simple ae ac aa :
   enum_of ae ac = MOk aa -> simple_enum ae = true -> opt_all simple_json ac = true -> simple_enum aa = true.
 Proof.
-  destruct ae as [l|], ac as [c|]; simpl; intros E; inversion E; subst; simpl; intros H1 H2; auto.
-  rewrite H2. reflexivity.
+  destruct ae as [l|], ac as [c|]; simpl; intros E; inversion E; subst; simpl; intros H1 H2; auto;
+    try (rewrite H2; reflexivity).
 Qed.
 
 Lemma merge_enum_sem ae ac be bc v :
@@ -1367,3 +1367,1193 @@ Lemma obj_example_never :
   let b := obj_of [([98%N], ty_only [TInteger])] [] (Some (SBool false)) in
   ofrag a = true /\ ofrag b = true /\ merge [] 4 a b = MNever.
 Proof. vm_compute. repeat split. Qed.
+
+(* ====================================================================== [obj_frag]: EXACTNESS of the merge
+   (both directions), never-soundness, closure, merge_all, permutation equivalence, [Valid] corollaries *)
+
+
+
+
+
+Definition tx_ok (tx : itype) : Prop := tx = TNumber \/ tx = TInteger.
+
+(* with one of `number` / `integer` absent, the instance types are pairwise disjoint *)
+Lemma type_ok_disjoint_x tx iaf t1 t2 v :
+  tx_ok tx -> t1 <> tx -> t2 <> tx ->
+  type_ok iaf t1 v = true -> type_ok iaf t2 v = true -> t1 = t2.
+Proof.
+  intros [->| ->] N1 N2;
+  destruct t1, t2; try reflexivity; try (exfalso; apply N1; reflexivity); try (exfalso; apply N2; reflexivity);
+    destruct v; simpl; intros H1 H2; try discriminate H1; try discriminate H2.
+Qed.
+
+Lemma notype_in tx l t : forallb (fun t => negb (itype_eqb t tx)) l = true -> In t l -> t <> tx.
+Proof.
+  intros H Hin E. subst t. rewrite forallb_forall in H. specialize (H _ Hin).
+  rewrite itype_eqb_refl in H. discriminate H.
+Qed.
+
+Lemma mem_ty_In t l : mem_ty t l = true <-> In t l.
+Proof.
+  unfold mem_ty. rewrite existsb_exists. split.
+  - intros [x [Hin E]]. apply itype_eqb_true in E. subst. exact Hin.
+  - intros H. exists t. split; [exact H | apply itype_eqb_refl].
+Qed.
+
+(* merge_so_instance_type is EXACT when integer and number do not meet *)
+Lemma merge_ty_exact tx o ta tb v :
+  tx_ok tx -> notype tx ta = true -> notype tx tb = true ->
+  match merge_ty ta tb with
+  | Some t => notype tx t = true /\ valid_type o t v = valid_type o ta v && valid_type o tb v
+  | None => valid_type o ta v && valid_type o tb v = false
+  end.
+Proof.
+  intros Htx Na Nb. destruct ta as [la|], tb as [lb|]; unfold merge_ty; cbv zeta.
+  - set (i := filter (fun t => mem_ty t la && mem_ty t lb) all_itypes).
+    assert (Hi : forall t, In t i <-> In t la /\ In t lb).
+    { intros t. unfold i. rewrite filter_In, andb_true_iff, !mem_ty_In. split.
+      - intros [_ H]. exact H.
+      - intros H. split; [|exact H]. unfold all_itypes. destruct t; simpl; tauto. }
+    assert (Hv : existsb (fun t => type_ok (int_accepts_integral_float o) t v) i
+                 = valid_type o (Some la) v && valid_type o (Some lb) v).
+    { unfold valid_type, opt_all.
+      destruct (existsb (fun t => type_ok (int_accepts_integral_float o) t v) i) eqn:E.
+      - apply existsb_exists in E. destruct E as [t [Hin Hok]]. apply Hi in Hin. destruct Hin as [I1 I2].
+        symmetry. apply andb_true_iff. split; apply existsb_exists; exists t; auto.
+      - symmetry. apply not_true_is_false. intros H. apply andb_true_iff in H. destruct H as [H1 H2].
+        apply existsb_exists in H1. destruct H1 as [t1 [I1 O1]].
+        apply existsb_exists in H2. destruct H2 as [t2 [I2 O2]].
+        assert (t1 = t2).
+        { apply (type_ok_disjoint_x tx (int_accepts_integral_float o) t1 t2 v Htx);
+            [exact (notype_in tx la t1 Na I1) | exact (notype_in tx lb t2 Nb I2) | exact O1 | exact O2]. }
+        subst t2. rewrite <- not_true_iff_false in E. apply E. apply existsb_exists. exists t1.
+        split; [apply Hi; auto | exact O1]. }
+    destruct i as [|x r] eqn:Ei.
+    + simpl in Hv. symmetry. exact Hv.
+    + split.
+      * unfold notype, opt_all. apply forallb_forall. intros t Ht. apply Hi in Ht. destruct Ht as [Ht _].
+        unfold notype, opt_all in Na. rewrite forallb_forall in Na. apply Na. exact Ht.
+      * exact Hv.
+  - split; [exact Na|]. unfold valid_type at 3. simpl. rewrite andb_true_r. reflexivity.
+  - split; [exact Nb|]. reflexivity.
+  - split; reflexivity.
+Qed.
+
+Lemma merge_ty_all_object_x ta tb t :
+  merge_ty ta tb = Some t -> all_object ta = true \/ all_object tb = true -> all_object t = true.
+Proof. apply merge_ty_all_object. Qed.
+
+
+Lemma simple_eqb_eq x y : simple_json x = true -> json_eqb x y = true -> x = y.
+Proof.
+  destruct x, y; simpl; intros S H; try discriminate S; try discriminate H; try reflexivity.
+  - destruct b, b0; simpl in H; try discriminate H; reflexivity.
+  - apply Z.eqb_eq in H. subst. reflexivity.
+  - apply m_ustr_eqb_eq in H. subst. reflexivity.
+Qed.
+
+Lemma json_eqb_refl_simple x : simple_json x = true -> json_eqb x x = true.
+Proof.
+  destruct x; simpl; intros S; try discriminate S; try reflexivity.
+  - destruct b; reflexivity.
+  - apply Z.eqb_refl.
+  - apply m_ustr_eqb_refl.
+Qed.
+
+Lemma enum_of_exact ae ac aa v :
+  enum_of ae ac = MOk aa -> enum_sem aa v = valid_enum ae v && valid_const ac v.
+Proof.
+  destruct ae as [l|], ac as [c|]; simpl; intros E; inversion E; subst; simpl.
+  - unfold valid_const. simpl. rewrite andb_true_r. reflexivity.
+  - unfold valid_const, valid_enum. simpl. rewrite orb_false_r. reflexivity.
+  - reflexivity.
+Qed.
+
+Lemma merge_enum_exact ae ac be bc v :
+  simple_enum ae = true -> opt_all simple_json ac = true ->
+  simple_enum be = true -> opt_all simple_json bc = true ->
+  match merge_enum ae ac be bc with
+  | MOk em => simple_enum em = true /\
+              enum_sem em v = (valid_enum ae v && valid_const ac v) && (valid_enum be v && valid_const bc v)
+  | MNever => (valid_enum ae v && valid_const ac v) && (valid_enum be v && valid_const bc v) = false
+  | _ => True
+  end.
+Proof.
+  intros Sa Sac Sb Sbc. unfold merge_enum.
+  destruct (enum_of ae ac) as [aa| | |] eqn:Ea; simpl; try exact I;
+    [|destruct ae, ac; simpl in Ea; discriminate Ea].
+  destruct (enum_of be bc) as [bb| | |] eqn:Eb; simpl; try exact I;
+    [|destruct be, bc; simpl in Eb; discriminate Eb].
+  rewrite <- (enum_of_exact _ _ _ v Ea), <- (enum_of_exact _ _ _ v Eb).
+  pose proof (enum_of_simple _ _ _ Ea Sa Sac) as Hsa.
+  pose proof (enum_of_simple _ _ _ Eb Sb Sbc) as Hsb.
+  destruct aa as [la|], bb as [lb|]; simpl.
+  - simpl in Hsa, Hsb. rewrite forallb_forall in Hsa, Hsb.
+    set (i := filter (fun v0 => existsb (json_eqb v0) lb) la).
+    assert (Hv : existsb (fun x => json_equiv x v) i
+                 = existsb (fun x => json_equiv x v) la && existsb (fun x => json_equiv x v) lb).
+    { destruct (existsb (fun x => json_equiv x v) i) eqn:E.
+      - apply existsb_exists in E. destruct E as [x [Hin Hx]]. unfold i in Hin. apply filter_In in Hin.
+        destruct Hin as [Ia Hb]. apply existsb_exists in Hb. destruct Hb as [y [Ib Exy]].
+        pose proof (simple_eqb_eq _ _ (Hsa _ Ia) Exy) as <-.
+        symmetry. apply andb_true_iff. split; apply existsb_exists; exists x; auto.
+      - symmetry. apply not_true_is_false. intros H. apply andb_true_iff in H. destruct H as [H1 H2].
+        apply existsb_exists in H1. destruct H1 as [x [Ia Ex]].
+        apply existsb_exists in H2. destruct H2 as [y [Ib Ey]].
+        rewrite <- not_true_iff_false in E. apply E. apply existsb_exists. exists x. split; [|exact Ex].
+        unfold i. apply filter_In. split; [exact Ia|]. apply existsb_exists. exists y. split; [exact Ib|].
+        eapply simple_equiv_eqb; eauto. }
+    destruct i as [|z r] eqn:Ei.
+    + simpl in Hv. symmetry. exact Hv.
+    + split; [|exact Hv].
+      unfold simple_enum, opt_all. apply forallb_forall. intros w Hw.
+      assert (In w (filter (fun v0 => existsb (json_eqb v0) lb) la)) by (fold i; rewrite Ei; exact Hw).
+      apply filter_In in H. apply Hsa. apply H.
+  - split; [exact Hsa|]. rewrite andb_true_r. reflexivity.
+  - split; [exact Hsb|]. reflexivity.
+  - split; reflexivity.
+Qed.
+
+(* the enum filter of merge_schema_object does not change the instance set *)
+Lemma enum_filter_exact o t c ev v :
+  forallb simple_json ev = true -> opt_all simple_json c = true ->
+  valid_type o t v = true -> valid_const c v = true ->
+  existsb (fun x => json_equiv x v) (filter (value_validate t None c) ev)
+  = existsb (fun x => json_equiv x v) ev.
+Proof.
+  intros Sev Sc Tv Cv.
+  destruct (existsb (fun x => json_equiv x v) ev) eqn:E.
+  - apply existsb_exists in E. destruct E as [x [Ix Ex]].
+    apply existsb_exists. exists x. split; [|exact Ex]. apply filter_In. split; [exact Ix|].
+    rewrite forallb_forall in Sev. pose proof (Sev _ Ix) as Sx.
+    unfold value_validate. simpl. rewrite andb_true_r. apply andb_true_iff. split.
+    + destruct c as [cc|]; [|reflexivity]. simpl in *. unfold valid_const in Cv. simpl in Cv.
+      eapply simple_equiv_eqb; eauto.
+    + destruct t as [l|]; [|reflexivity]. simpl. unfold valid_type in Tv. simpl in Tv.
+      apply existsb_exists in Tv. destruct Tv as [t1 [I1 O1]].
+      apply existsb_exists. exists t1. split; [exact I1|].
+      eapply simple_check_instance; eauto.
+  - apply not_true_is_false. intros H. apply existsb_exists in H. destruct H as [x [Ix Ex]].
+    apply filter_In in Ix. destruct Ix as [Ix _].
+    rewrite <- not_true_iff_false in E. apply E. apply existsb_exists. exists x. auto.
+Qed.
+
+
+(* ---- association lists with unique keys *)
+Lemma has_key_iff {A} k (l : list (ustring * A)) : has_key k l = true <-> exists x, In (k, x) l.
+Proof.
+  split.
+  - intros H. destruct (has_key_assoc _ _ H) as [x Hx]. exists x. apply assoc_In. exact Hx.
+  - intros [x Hx]. eapply In_has_key; eauto.
+Qed.
+
+Lemma uniq_assoc_In {A} k (x : A) l : uniq_keys l = true -> In (k, x) l -> assoc k l = Some x.
+Proof.
+  induction l as [|[k' y] r IH]; simpl; [intros _ []|].
+  intros U [E|Hin].
+  - inversion E; subst. rewrite m_ustr_eqb_refl. reflexivity.
+  - apply andb_true_iff in U. destruct U as [U1 U2].
+    destruct (ustr_eqb k k') eqn:Ek.
+    + apply m_ustr_eqb_eq in Ek. subst k'. apply negb_true_iff in U1.
+      rewrite (In_has_key _ _ _ Hin) in U1. discriminate U1.
+    + apply IH; assumption.
+Qed.
+
+Lemma uniq_functional {A} k (x y : A) l : uniq_keys l = true -> In (k, x) l -> In (k, y) l -> x = y.
+Proof.
+  intros U H1 H2. apply (uniq_assoc_In _ _ _ U) in H1. apply (uniq_assoc_In _ _ _ U) in H2. congruence.
+Qed.
+
+Lemma wf_json_obj kvs :
+  wf_json (JObj kvs) = true -> uniq_keys kvs = true /\ forall k x, In (k, x) kvs -> wf_json x = true.
+Proof.
+  induction kvs as [|[k x] r IH]; intros H.
+  - split; [reflexivity | intros k x []].
+  - change (negb (has_key k r) && wf_json x && wf_json (JObj r) = true) in H.
+    apply andb_true_iff in H. destruct H as [H H3]. apply andb_true_iff in H. destruct H as [H1 H2].
+    destruct (IH H3) as [U W]. split.
+    + simpl. rewrite H1, U. reflexivity.
+    + intros k' x' [E|Hin]; [inversion E; subst; exact H2 | eauto].
+Qed.
+
+(* validity of the object applicators, key by key *)
+Definition keysem (F : schema -> json -> bool) (props : list (ustring * schema)) (ap : option schema)
+           (k : ustring) (x : json) : bool :=
+  match assoc k props with
+  | Some s => F s x
+  | None => opt_all (fun a => F a x) ap
+  end.
+
+Lemma valid_obj_keywise F props ap kvs :
+  uniq_keys props = true -> uniq_keys kvs = true ->
+  (valid_obj F props ap kvs = true <-> forall k x, In (k, x) kvs -> keysem F props ap k x = true).
+Proof.
+  intros Up Uk. rewrite valid_obj_spec. unfold keysem. split.
+  - intros [H1 H2] k x Hin.
+    destruct (assoc k props) as [s|] eqn:Es.
+    + eapply H1; [apply assoc_In; exact Es | apply uniq_assoc_In; assumption].
+    + destruct ap as [a|]; [|reflexivity]. simpl.
+      destruct (H2 a eq_refl k x Hin) as [Hk|Hv]; [|exact Hv].
+      unfold has_key in Hk. rewrite Es in Hk. discriminate Hk.
+  - intros H. split.
+    + intros k s x Hin Hx. apply assoc_In in Hx. specialize (H _ _ Hx).
+      rewrite (uniq_assoc_In _ _ _ Up Hin) in H. exact H.
+    + intros a -> k x Hin. specialize (H _ _ Hin).
+      destruct (assoc k props) as [s|] eqn:Es.
+      * left. unfold has_key. rewrite Es. reflexivity.
+      * right. exact H.
+Qed.
+
+(* ---- props_loop keeps keys unique *)
+Lemma props_loop_keys req apm ps pm k :
+  props_loop req apm ps = MOk pm -> has_key k pm = true -> has_key k ps = true.
+Proof.
+  intros El Hk. apply has_key_iff in Hk. destruct Hk as [s Hs].
+  destruct (props_loop_ok _ _ _ _ El) as (_ & P1 & _).
+  apply has_key_iff. eexists. apply P1. exact Hs.
+Qed.
+
+Lemma props_loop_uniq req apm ps : forall pm,
+  uniq_keys ps = true -> props_loop req apm ps = MOk pm -> uniq_keys pm = true.
+Proof.
+  induction ps as [|[k r] rest IH]; intros pm U El.
+  - simpl in El. inversion El; subst. reflexivity.
+  - simpl in U. apply andb_true_iff in U. destruct U as [U1 U2]. apply negb_true_iff in U1.
+    destruct r as [s| | |]; try (simpl in El; discriminate El).
+    rewrite props_loop_cons in El.
+    assert (Hcons : forall l s', props_loop req apm rest = MOk l -> uniq_keys ((k, s') :: l) = true).
+    { intros l s' E. simpl. rewrite (IH _ U2 E), andb_true_r. apply negb_true_iff.
+      destruct (has_key k l) eqn:Hk; [|reflexivity].
+      rewrite (props_loop_keys _ _ _ _ _ E Hk) in U1. discriminate U1. }
+    destruct (is_false s).
+    + destruct (mem_ustr k req); [discriminate El|].
+      destruct (ap_is_false apm); [apply IH; assumption|].
+      destruct (props_loop req apm rest) as [l| | |] eqn:E; simpl in El; try discriminate El.
+      inversion El; subst. apply Hcons. reflexivity.
+    + destruct (props_loop req apm rest) as [l| | |] eqn:E; simpl in El; try discriminate El.
+      inversion El; subst. apply Hcons. reflexivity.
+Qed.
+
+
+Lemma uniq_keys_map {A B} (f : A -> B) (l : list (ustring * A)) :
+  uniq_keys (map (fun kv => (fst kv, f (snd kv))) l) = uniq_keys l.
+Proof.
+  induction l as [|[k x] r IH]; simpl; [reflexivity|]. rewrite IH. f_equal. f_equal.
+  unfold has_key. clear IH. induction r as [|[k' y] r IH]; simpl; [reflexivity|].
+  destruct (ustr_eqb k k'); [reflexivity | exact IH].
+Qed.
+
+Lemma uniq_keys_map2 {A B} (f : ustring * A -> B) (l : list (ustring * A)) :
+  uniq_keys (map (fun kv => (fst kv, f kv)) l) = uniq_keys l.
+Proof.
+  induction l as [|[k x] r IH]; simpl; [reflexivity|]. rewrite IH. f_equal. f_equal.
+  unfold has_key. clear IH. induction r as [|[k' y] r IH]; simpl; [reflexivity|].
+  destruct (ustr_eqb k k'); [reflexivity | exact IH].
+Qed.
+
+Lemma uniq_keys_filter {A} (p : ustring * A -> bool) (l : list (ustring * A)) :
+  uniq_keys l = true -> uniq_keys (filter p l) = true.
+Proof.
+  induction l as [|[k x] r IH]; simpl; [reflexivity|]. intros U.
+  apply andb_true_iff in U. destruct U as [U1 U2].
+  destruct (p (k, x)); [|apply IH; exact U2].
+  simpl. rewrite (IH U2), andb_true_r. apply negb_true_iff. apply negb_true_iff in U1.
+  destruct (has_key k (filter p r)) eqn:Hk; [|reflexivity].
+  apply has_key_iff in Hk. destruct Hk as [y Hy]. apply filter_In in Hy. destruct Hy as [Hy _].
+  rewrite (In_has_key _ _ _ Hy) in U1. discriminate U1.
+Qed.
+
+Lemma uniq_keys_app {A} (l1 l2 : list (ustring * A)) :
+  uniq_keys l1 = true -> uniq_keys l2 = true ->
+  (forall k, has_key k l1 = true -> has_key k l2 = true -> False) ->
+  uniq_keys (l1 ++ l2) = true.
+Proof.
+  induction l1 as [|[k x] r IH]; simpl; intros U1 U2 D; [exact U2|].
+  apply andb_true_iff in U1. destruct U1 as [Ua Ub].
+  rewrite IH; [rewrite andb_true_r | exact Ub | exact U2 |].
+  - apply negb_true_iff. apply negb_true_iff in Ua.
+    destruct (has_key k (r ++ l2)) eqn:Hk; [|reflexivity].
+    apply has_key_iff in Hk. destruct Hk as [y Hy]. apply in_app_iff in Hy. destruct Hy as [Hy|Hy].
+    + rewrite (In_has_key _ _ _ Hy) in Ua. discriminate Ua.
+    + exfalso. apply (D k).
+      * unfold has_key. simpl. rewrite m_ustr_eqb_refl. reflexivity.
+      * eapply In_has_key; eauto.
+  - intros k' H1 H2. apply (D k'); [|exact H2].
+    unfold has_key in *. simpl. destruct (ustr_eqb k' k); [reflexivity | exact H1].
+Qed.
+
+Section ObjExact.
+  Variable re_match : ustring -> ustring -> bool.
+  Variable fmt_ok : ustring -> ustring -> bool.
+  Variable o : vopts.
+  Variable DV : defs.
+  Variable n : nat.
+  Variable tx : itype.
+  Local Notation V := (Valid.validx re_match fmt_ok o DV n).
+
+  (* exactness invariant of a merge result *)
+  Definition ex_ok (r : mres schema) (a b : schema) : Prop :=
+    match r with
+    | MOk m => obj_frag tx m = true /\ forall v, wf_json v = true -> V m v = V a v && V b v
+    | MNever => forall v, wf_json v = true -> V a v && V b v = false
+    | _ => True
+    end.
+
+  Variable mrg : schema -> schema -> mres schema.
+  Hypothesis Hm : forall x y, obj_frag tx x = true -> obj_frag tx y = true -> ex_ok (mrg x y) x y.
+
+  Local Notation apS := (apsem re_match fmt_ok o DV n).
+
+  Lemma filter_prop_exact ap prop x : V (filter_prop ap prop) x = apS ap x && V prop x.
+  Proof.
+    unfold apsem.
+    destruct ap as [[[|]|ty fmt enum cst nv sv ik items ai mni mxi uq props req ap mnp mxp allo anyo oneo no ref d t]|];
+      simpl filter_prop; simpl opt_all.
+    - rewrite valid_SBool. reflexivity.
+    - rewrite valid_SBool. reflexivity.
+    - rewrite valid_allOf. simpl. rewrite andb_true_r. reflexivity.
+    - reflexivity.
+  Qed.
+
+  Lemma filter_prop_frag ap prop :
+    opt_all (obj_frag tx) ap = true -> obj_frag tx prop = true -> obj_frag tx (filter_prop ap prop) = true.
+  Proof.
+    destruct ap as [[[|]|ty fmt enum cst nv sv ik items ai mni mxi uq props req ap mnp mxp allo anyo oneo no ref d t]|];
+      intros A P; try exact P; try reflexivity.
+    unfold filter_prop, SAllOf. cbn [obj_frag]. cbn [opt_all] in A.
+    cbn [notype opt_all is_none simple_enum forallb uniq_keys andb].
+    rewrite A, P. reflexivity.
+  Qed.
+
+  Lemma merge_ap_exact ap ap' :
+    opt_all (obj_frag tx) ap = true -> opt_all (obj_frag tx) ap' = true ->
+    match merge_ap mrg ap ap' with
+    | MOk apm => opt_all (obj_frag tx) apm = true
+                 /\ forall x, wf_json x = true -> apS apm x = apS ap x && apS ap' x
+    | MNever => False
+    | _ => True
+    end.
+  Proof.
+    unfold apsem.
+    destruct ap as [x|], ap' as [y|]; simpl; intros A B.
+    - pose proof (Hm x y A B) as H. unfold ex_ok in H.
+      destruct (mrg x y) as [m| | |]; simpl; try exact I.
+      + destruct H as [H1 H2]. split; [exact H1 | exact H2].
+      + split; [reflexivity|]. intros z Wz. rewrite valid_SBool. symmetry. apply H. exact Wz.
+    - split; [exact A|]. intros z _. rewrite andb_true_r. reflexivity.
+    - split; [exact B|]. intros z _. reflexivity.
+    - split; [reflexivity|]. intros z _. reflexivity.
+  Qed.
+
+  (* ---- the entries of the property loop *)
+  Variables (props props' : list (ustring * schema)) (ap ap' : option schema).
+  Hypothesis Fa : forallb (fun kv => obj_frag tx (snd kv)) props = true.
+  Hypothesis Fb : forallb (fun kv => obj_frag tx (snd kv)) props' = true.
+  Hypothesis Aa : opt_all (obj_frag tx) ap = true.
+  Hypothesis Ab : opt_all (obj_frag tx) ap' = true.
+  Hypothesis Ua : uniq_keys props = true.
+  Hypothesis Ub : uniq_keys props' = true.
+
+  Local Notation ps := (from_a mrg props props' ap' ++ from_b props props' ap).
+
+  Lemma frag_in (l : list (ustring * schema)) k s :
+    forallb (fun kv => obj_frag tx (snd kv)) l = true -> In (k, s) l -> obj_frag tx s = true.
+  Proof. intros H Hin. rewrite forallb_forall in H. apply (H (k, s) Hin). Qed.
+
+  Lemma ps_uniq : uniq_keys ps = true.
+  Proof.
+    apply uniq_keys_app.
+    - unfold from_a.
+      rewrite (uniq_keys_map2 (fun kv => match assoc (fst kv) props' with
+                                         | Some sb => or_false (mrg (snd kv) sb)
+                                         | None => MOk (filter_prop ap' (snd kv))
+                                         end) props). exact Ua.
+    - unfold from_b.
+      rewrite (uniq_keys_map2 (fun kv => @MOk schema (filter_prop ap (snd kv)))).
+      apply uniq_keys_filter. exact Ub.
+    - intros k H1 H2. apply has_key_iff in H1. destruct H1 as [r1 H1]. apply has_key_iff in H2. destruct H2 as [r2 H2].
+      apply in_from_a in H1. destruct H1 as [sa [Hin _]].
+      apply in_from_b in H2. destruct H2 as [sb [_ [Hk _]]].
+      rewrite (In_has_key _ _ _ Hin) in Hk. discriminate Hk.
+  Qed.
+
+  (* what the resolved schema of an entry means, for every (well-formed) member value *)
+  Lemma entry_exact k s :
+    In (k, MOk s) ps ->
+    obj_frag tx s = true /\
+    forall x, wf_json x = true -> V s x = keysem V props ap k x && keysem V props' ap' k x.
+  Proof.
+    intros Hin. apply in_app_iff in Hin. unfold keysem. destruct Hin as [H|H].
+    - apply in_from_a in H. destruct H as [sa [Hina E]].
+      rewrite (uniq_assoc_In _ _ _ Ua Hina).
+      pose proof (frag_in _ _ _ Fa Hina) as Fsa.
+      destruct (assoc k props') as [sb|] eqn:Eb.
+      + pose proof (assoc_In _ _ _ Eb) as Hinb. pose proof (frag_in _ _ _ Fb Hinb) as Fsb.
+        pose proof (Hm sa sb Fsa Fsb) as Hx. unfold ex_ok in Hx.
+        destruct (mrg sa sb) as [m| | |]; simpl in E; inversion E; subst.
+        * exact Hx.
+        * split; [reflexivity|]. intros x Wx. rewrite valid_SBool. symmetry. apply Hx. exact Wx.
+      + inversion E; subst. split; [apply filter_prop_frag; assumption|].
+        intros x _. rewrite filter_prop_exact. apply andb_comm.
+    - apply in_from_b in H. destruct H as [sb [Hinb [Hk E]]]. inversion E; subst.
+      rewrite (has_key_false_assoc _ _ Hk). rewrite (uniq_assoc_In _ _ _ Ub Hinb).
+      split; [apply filter_prop_frag; [assumption | eapply frag_in; eauto]|].
+      intros x _. apply filter_prop_exact.
+  Qed.
+
+  Lemma entry_exists k :
+    has_key k props = true \/ has_key k props' = true -> exists r, In (k, r) ps.
+  Proof.
+    intros [H|H].
+    - apply has_key_iff in H. destruct H as [sa Hsa]. eapply entries_cover_a; eauto.
+    - apply has_key_iff in H. destruct H as [sb Hsb]. eapply entries_cover_b; eauto.
+  Qed.
+
+  Lemma entry_keys k r : In (k, r) ps -> has_key k props = true \/ has_key k props' = true.
+  Proof.
+    intros H. apply in_app_iff in H. destruct H as [H|H].
+    - apply in_from_a in H. destruct H as [sa [Hin _]]. left. eapply In_has_key; eauto.
+    - apply in_from_b in H. destruct H as [sb [Hin _]]. right. eapply In_has_key; eauto.
+  Qed.
+
+  (* key by key, the merged object group means the conjunction *)
+  Lemma merged_keysem req0 apm pm k x :
+    props_loop req0 apm ps = MOk pm ->
+    (forall z, wf_json z = true -> apS apm z = apS ap z && apS ap' z) ->
+    wf_json x = true ->
+    keysem V pm apm k x = keysem V props ap k x && keysem V props' ap' k x.
+  Proof.
+    intros El Hap Wx.
+    destruct (props_loop_ok _ _ _ _ El) as (P0 & P1 & P2 & P3).
+    pose proof ps_uniq as Ups.
+    destruct (has_key k props || has_key k props') eqn:Hk.
+    - apply orb_true_iff in Hk. destruct (entry_exists k Hk) as [r Hr].
+      destruct (P0 _ _ Hr) as [s ->]. destruct (entry_exact k s Hr) as [_ Hs].
+      rewrite <- (Hs x Wx).
+      destruct (is_false s) eqn:Fs.
+      + pose proof (is_false_eq _ Fs) as ->. rewrite valid_SBool.
+        unfold keysem. destruct (assoc k pm) as [s''|] eqn:Epm.
+        * apply assoc_In in Epm. apply P1 in Epm.
+          pose proof (uniq_functional _ _ _ _ Ups Epm Hr) as E. inversion E; subst. apply valid_SBool.
+        * destruct (P3 _ _ Hr eq_refl) as [_ J].
+          destruct (ap_is_false apm) eqn:Af.
+          -- destruct apm as [[[|]|]|]; try discriminate Af. simpl. apply valid_SBool.
+          -- pose proof (In_has_key _ _ _ (J eq_refl)) as C. unfold has_key in C. rewrite Epm in C. discriminate C.
+      + pose proof (P2 _ _ Hr Fs) as Hpm.
+        unfold keysem at 1. rewrite (uniq_assoc_In _ _ _ (props_loop_uniq _ _ _ _ Ups El) Hpm). reflexivity.
+    - apply orb_false_iff in Hk. destruct Hk as [Ka Kb].
+      unfold keysem. rewrite (has_key_false_assoc _ _ Ka), (has_key_false_assoc _ _ Kb).
+      destruct (assoc k pm) as [s''|] eqn:Epm.
+      + apply assoc_In in Epm. apply P1 in Epm. destruct (entry_keys _ _ Epm) as [C|C]; congruence.
+      + apply Hap. exact Wx.
+  Qed.
+End ObjExact.
+
+
+Lemma choose_max_iff a b len :
+  opt_all (fun m => N.leb m len) (choose N.max a b) = true <->
+  opt_all (fun m => N.leb m len) a = true /\ opt_all (fun m => N.leb m len) b = true.
+Proof.
+  destruct a as [x|], b as [y|]; simpl; rewrite ?N.leb_le; try tauto. lia.
+Qed.
+
+Lemma choose_min_iff a b len :
+  opt_all (fun m => N.leb len m) (choose N.min a b) = true <->
+  opt_all (fun m => N.leb len m) a = true /\ opt_all (fun m => N.leb len m) b = true.
+Proof.
+  destruct a as [x|], b as [y|]; simpl; rewrite ?N.leb_le; try tauto. lia.
+Qed.
+
+Lemma union_req_forallb (f : ustring -> bool) a b :
+  forallb f (union_req a b) = true <-> forallb f a = true /\ forallb f b = true.
+Proof.
+  unfold union_req. rewrite forallb_app, andb_true_iff. split.
+  - intros [H1 H2]. split; [exact H1|]. apply forallb_forall. intros k Hk.
+    destruct (mem_ustr k a) eqn:M.
+    + apply mem_ustr_In in M. rewrite forallb_forall in H1. apply H1. exact M.
+    + rewrite forallb_forall in H2. apply H2. apply filter_In. split; [exact Hk|]. rewrite M. reflexivity.
+  - intros [H1 H2]. split; [exact H1|]. apply forallb_forall. intros k Hk. apply filter_In in Hk.
+    rewrite forallb_forall in H2. apply H2. apply Hk.
+Qed.
+
+Lemma valid_obj_local_merge req mnp mxp req' mnp' mxp' kvs :
+  valid_obj_local (union_req req req') (choose N.max mnp mnp') (choose N.min mxp mxp') (JObj kvs) = true <->
+  valid_obj_local req mnp mxp (JObj kvs) = true /\ valid_obj_local req' mnp' mxp' (JObj kvs) = true.
+Proof.
+  unfold valid_obj_local. rewrite !andb_true_iff, union_req_forallb, choose_max_iff, choose_min_iff. tauto.
+Qed.
+
+Lemma obj_absent_shape props req ap mnp mxp :
+  obj_absent props req ap mnp mxp = true -> props = [] /\ req = [] /\ ap = None /\ mnp = None /\ mxp = None.
+Proof.
+  unfold obj_absent. destruct props, req, ap, mnp, mxp; simpl; intros H; try discriminate H. repeat split.
+Qed.
+
+Section ObjGroupExact.
+  Variable re_match : ustring -> ustring -> bool.
+  Variable fmt_ok : ustring -> ustring -> bool.
+  Variable o : vopts.
+  Variable DV : defs.
+  Variable n : nat.
+  Variable tx : itype.
+  Local Notation V := (Valid.validx re_match fmt_ok o DV n).
+  Local Notation exok := (ex_ok re_match fmt_ok o DV n tx).
+
+  Variable mrg : schema -> schema -> mres schema.
+  Hypothesis Hm : forall x y, obj_frag tx x = true -> obj_frag tx y = true -> exok (mrg x y) x y.
+
+  Definition obool (props : list (ustring * schema)) (req : list ustring) (ap : option schema)
+             (mnp mxp : option N) (kvs : list (ustring * json)) : bool :=
+    valid_obj_local req mnp mxp (JObj kvs) && valid_obj V props ap kvs.
+
+  Lemma merge_obj_exact props req ap mnp mxp props' req' ap' mnp' mxp' :
+    forallb (fun kv => obj_frag tx (snd kv)) props = true ->
+    forallb (fun kv => obj_frag tx (snd kv)) props' = true ->
+    opt_all (obj_frag tx) ap = true -> opt_all (obj_frag tx) ap' = true ->
+    uniq_keys props = true -> uniq_keys props' = true ->
+    match merge_obj mrg (props, req, ap, mnp, mxp) (props', req', ap', mnp', mxp') with
+    | MOk (pm, rm, apm, mnm, mxm) =>
+        forallb (fun kv => obj_frag tx (snd kv)) pm = true /\ opt_all (obj_frag tx) apm = true
+        /\ uniq_keys pm = true
+        /\ (obj_absent props req ap mnp mxp = true -> obj_absent props' req' ap' mnp' mxp' = true ->
+            obj_absent pm rm apm mnm mxm = true)
+        /\ forall kvs, wf_json (JObj kvs) = true ->
+                       obool pm rm apm mnm mxm kvs = obool props req ap mnp mxp kvs && obool props' req' ap' mnp' mxp' kvs
+    | MNever => obj_absent props req ap mnp mxp = false /\ obj_absent props' req' ap' mnp' mxp' = false
+                /\ forall kvs, wf_json (JObj kvs) = true ->
+                               obool props req ap mnp mxp kvs && obool props' req' ap' mnp' mxp' kvs = false
+    | _ => True
+    end.
+  Proof.
+    intros Fa Fb Aa Ab Ua Ub.
+    unfold merge_obj. cbv beta iota zeta.
+    destruct (obj_absent props req ap mnp mxp) eqn:Oa.
+    { destruct (obj_absent_shape _ _ _ _ _ Oa) as (-> & -> & -> & -> & ->).
+      split; [exact Fb | split; [exact Ab | split; [exact Ub | split; [intros _ H; exact H|]]]].
+      intros kvs _. unfold obool at 2. unfold valid_obj_local, valid_obj. simpl. reflexivity. }
+    destruct (obj_absent props' req' ap' mnp' mxp') eqn:Ob.
+    { destruct (obj_absent_shape _ _ _ _ _ Ob) as (-> & -> & -> & -> & ->).
+      split; [exact Fa | split; [exact Aa | split; [exact Ua | split; [intros C; discriminate C|]]]].
+      intros kvs _. unfold obool at 3. unfold valid_obj_local, valid_obj. simpl. rewrite andb_true_r. reflexivity. }
+    pose proof (merge_ap_exact re_match fmt_ok o DV n tx mrg Hm ap ap' Aa Ab) as Hap.
+    destruct (merge_ap mrg ap ap') as [apm| | |]; cbn [mbind]; try exact I; [|destruct Hap].
+    destruct Hap as (Am & Sap).
+    set (ps := from_a mrg props props' ap' ++ from_b props props' ap).
+    pose proof (ps_uniq mrg props props' ap ap' Ua Ub) as Ups. fold ps in Ups.
+    (* validity of both sides, key by key *)
+    assert (Kboth : forall kvs, wf_json (JObj kvs) = true ->
+              (valid_obj V props ap kvs = true /\ valid_obj V props' ap' kvs = true <->
+               forall k x, In (k, x) kvs -> keysem V props ap k x && keysem V props' ap' k x = true)).
+    { intros kvs W. destruct (wf_json_obj _ W) as [Uk _].
+      rewrite (valid_obj_keywise V props ap kvs Ua Uk), (valid_obj_keywise V props' ap' kvs Ub Uk).
+      split.
+      - intros [H1 H2] k x Hin. rewrite (H1 _ _ Hin), (H2 _ _ Hin). reflexivity.
+      - intros H. split; intros k x Hin; specialize (H _ _ Hin); apply andb_true_iff in H; apply H. }
+    match goal with
+    | |- context [props_loop ?r ?a ?l] => destruct (props_loop r a l) as [pm| | |] eqn:El
+    end; cbn [mbind]; try exact I.
+    - destruct (props_loop_ok (union_req req req') apm ps pm El) as (P0 & P1 & P2 & P3).
+      pose proof (props_loop_uniq _ _ _ _ Ups El) as Upm.
+      destruct (min_gt_max (choose N.max mnp mnp') (choose N.min mxp mxp')) eqn:Em.
+      + split; [reflexivity|split; [reflexivity|]].
+        intros kvs _. apply not_true_is_false. intros H.
+        unfold obool in H. rewrite !andb_true_iff in H. destruct H as [[La _] [Lb _]].
+        unfold valid_obj_local in La, Lb.
+        apply andb_true_iff in La. destruct La as [La La3]. apply andb_true_iff in La. destruct La as [La1 La2].
+        apply andb_true_iff in Lb. destruct Lb as [Lb Lb3]. apply andb_true_iff in Lb. destruct Lb as [Lb1 Lb2].
+        rewrite (min_gt_max_false _ _ (N.of_nat (length kvs))) in Em; [discriminate Em | |].
+        * apply choose_max_sem; assumption.
+        * apply choose_min_sem; assumption.
+      + split; [|split; [|split; [|split]]].
+        * apply forallb_forall. intros [k s] Hin. simpl.
+          apply (entry_exact re_match fmt_ok o DV n tx mrg Hm props props' ap ap' Fa Fb Aa Ab Ua Ub k s).
+          apply P1. exact Hin.
+        * exact Am.
+        * exact Upm.
+        * intros C. discriminate C.
+        * intros kvs W. destruct (wf_json_obj _ W) as [Uk Wx].
+          apply eq_true_iff_eq. unfold obool.
+          rewrite !andb_true_iff.
+          rewrite valid_obj_local_merge.
+          rewrite (valid_obj_keywise V pm apm kvs Upm Uk).
+          assert (Hkey : (forall k x, In (k, x) kvs -> keysem V pm apm k x = true) <->
+                         (valid_obj V props ap kvs = true /\ valid_obj V props' ap' kvs = true)).
+          { rewrite (Kboth kvs W). split; intros H k x Hin.
+            - rewrite <- (merged_keysem re_match fmt_ok o DV n tx mrg Hm props props' ap ap' Fa Fb Aa Ab Ua Ub
+                            (union_req req req') apm pm k x El Sap (Wx _ _ Hin)). apply H. exact Hin.
+            - rewrite (merged_keysem re_match fmt_ok o DV n tx mrg Hm props props' ap ap' Fa Fb Aa Ab Ua Ub
+                         (union_req req req') apm pm k x El Sap (Wx _ _ Hin)). apply H. exact Hin. }
+          rewrite Hkey. tauto.
+    - split; [reflexivity|split; [reflexivity|]].
+      intros kvs W. destruct (wf_json_obj _ W) as [Uk Wx].
+      apply not_true_is_false. intros H.
+      unfold obool in H. rewrite !andb_true_iff in H. destruct H as [[La Va] [Lb Vb]].
+      destruct (props_loop_never _ _ _ El) as [[k [Hin Hreq]]|[k Hin]].
+      + apply mem_ustr_In in Hreq. unfold union_req in Hreq. apply in_app_iff in Hreq.
+        unfold valid_obj_local in La, Lb.
+        apply andb_true_iff in La. destruct La as [La _]. apply andb_true_iff in La. destruct La as [La1 _].
+        apply andb_true_iff in Lb. destruct Lb as [Lb _]. apply andb_true_iff in Lb. destruct Lb as [Lb1 _].
+        rewrite forallb_forall in La1, Lb1.
+        assert (Hk : has_key k kvs = true).
+        { destruct Hreq as [H|H]; [apply La1; exact H | apply filter_In in H; apply Lb1; apply H]. }
+        apply has_key_iff in Hk. destruct Hk as [x0 Hx0].
+        destruct (entry_exact re_match fmt_ok o DV n tx mrg Hm props props' ap ap' Fa Fb Aa Ab Ua Ub k _ Hin) as [_ Hs].
+        specialize (Hs x0 (Wx _ _ Hx0)). rewrite valid_SBool in Hs.
+        destruct (Kboth kvs W) as [K1 _]. specialize (K1 (conj Va Vb) _ _ Hx0). congruence.
+      + eapply entries_no_never; eauto.
+  Qed.
+End ObjGroupExact.
+
+
+Lemma numv_none_valid nv v : numv_is_none nv = true -> valid_num nv v = true.
+Proof.
+  destruct nv as [a b c d e]. unfold numv_is_none, numv_eqb. simpl.
+  destruct a, b, c, d, e; simpl; intros H; try discriminate H.
+  unfold valid_num. destruct (num_of v); reflexivity.
+Qed.
+
+Lemma strv_none_valid re_match sv v : strv_is_none sv = true -> valid_str re_match sv v = true.
+Proof.
+  destruct sv as [a b c]. unfold strv_is_none, strv_eqb. simpl.
+  destruct a, b, c; simpl; intros H; try discriminate H.
+  unfold valid_str. destruct v; reflexivity.
+Qed.
+
+Lemma merge_nv_none a b : numv_is_none a = true -> merge_nv a b = MOk b.
+Proof. unfold merge_nv. intros ->. reflexivity. Qed.
+Lemma merge_sv_none a b : strv_is_none a = true -> merge_sv a b = MOk b.
+Proof. unfold merge_sv. intros ->. reflexivity. Qed.
+
+(* try_merge_with_subschemas when only allOf may be present *)
+Definition with_allof (mrg : schema -> schema -> mres schema) (so : schema) (allo : option (list schema)) : mres schema :=
+  match allo with
+  | None => MOk so
+  | Some l => mbind (fold_left (fun acc other => mbind acc (fun s => mrg s other)) l (MOk so))
+                    (fun s => MOk (into_obj s))
+  end.
+
+Lemma with_subs_allof mrg rough so allo : with_subs mrg rough so allo None None None = with_allof mrg so allo.
+Proof.
+  destruct allo as [l|]; [|reflexivity].
+  unfold with_subs, with_allof. simpl.
+  destruct (fold_left (fun acc other => mbind acc (fun s => mrg s other)) l (MOk so)); reflexivity.
+Qed.
+
+(* the enum filter at the end of merge_schema_object *)
+Definition enum_filter (m2 : schema) : schema :=
+  match m2 with
+  | SObj t2 f2 (Some ev) c2 n2 s2 ik2 it2 ai2 mni2 mxi2 uq2 p2 r2 ap2 mnp2 mxp2 al2 an2 on2 no2 ref2 d2 tt2 =>
+      SObj t2 f2 (Some (filter (value_validate t2 None c2) ev)) c2 n2 s2 ik2 it2 ai2 mni2 mxi2 uq2
+           p2 r2 ap2 mnp2 mxp2 al2 an2 on2 no2 ref2 d2 tt2
+  | x => x
+  end.
+
+Section ObjWhole.
+  Variable re_match : ustring -> ustring -> bool.
+  Variable fmt_ok : ustring -> ustring -> bool.
+  Variable o : vopts.
+  Variable DV : defs.
+  Variable n : nat.
+  Variable tx : itype.
+  Hypothesis Htx : tx_ok tx.
+  Variable D : defs.
+  Local Notation V := (Valid.validx re_match fmt_ok o DV n).
+  Local Notation exok := (ex_ok re_match fmt_ok o DV n tx).
+
+  Lemma V_frag ty enum cst nv sv items props req ap mnp mxp allo d t v :
+    numv_is_none nv = true -> strv_is_none sv = true ->
+    V (SObj ty None enum cst nv sv ItemsAbsent items None None None false props req ap mnp mxp allo
+            None None None None d t) v
+    = valid_type o ty v && valid_enum enum v && valid_const cst v && valid_obj_local req mnp mxp v
+      && match v with JObj kvs => valid_obj V props ap kvs | _ => true end
+      && opt_all (forallb (fun s' => V s' v)) allo.
+  Proof.
+    intros Hn Hs.
+    rewrite validx_SObj. cbv zeta. unfold combine_ref, here_v, valid_local, valid_format, valid_arr_local.
+    rewrite (numv_none_valid nv v Hn), (strv_none_valid re_match sv v Hs).
+    destruct v; simpl; rewrite ?andb_true_r; reflexivity.
+  Qed.
+
+  Lemma frag_shape ty fmt enum cst nv sv ik items ai mni mxi uq props req ap mnp mxp allo anyo oneo no ref d t :
+    obj_frag tx (SObj ty fmt enum cst nv sv ik items ai mni mxi uq props req ap mnp mxp allo anyo oneo no ref d t) = true ->
+    fmt = None /\ ik = ItemsAbsent /\ items = [] /\ ai = None /\ mni = None /\ mxi = None /\ uq = false
+    /\ anyo = None /\ oneo = None /\ no = None /\ ref = None
+    /\ notype tx ty = true /\ simple_enum enum = true /\ opt_all simple_json cst = true
+    /\ numv_is_none nv = true /\ strv_is_none sv = true
+    /\ (obj_absent props req ap mnp mxp || all_object ty = true)
+    /\ uniq_keys props = true
+    /\ forallb (fun kv => obj_frag tx (snd kv)) props = true /\ opt_all (obj_frag tx) ap = true
+    /\ opt_all (forallb (obj_frag tx)) allo = true.
+  Proof.
+    intros H. cbn [obj_frag] in H. unfold arr_absent in H.
+    repeat match goal with
+           | Hx : _ && _ = true |- _ => apply andb_true_iff in Hx; destruct Hx
+           end.
+    destruct fmt; [simpl in *; congruence|].
+    destruct ik; try (simpl in *; congruence).
+    destruct items; [|simpl in *; congruence].
+    destruct ai; [simpl in *; congruence|].
+    destruct mni; [simpl in *; congruence|].
+    destruct mxi; [simpl in *; congruence|].
+    destruct uq; [simpl in *; congruence|].
+    destruct anyo; [simpl in *; congruence|].
+    destruct oneo; [simpl in *; congruence|].
+    destruct no; [simpl in *; congruence|].
+    destruct ref; [simpl in *; congruence|].
+    repeat split; assumption.
+  Qed.
+
+  Lemma frag_into_obj s : obj_frag tx s = true -> obj_frag tx (into_obj s) = true.
+  Proof. destruct s as [[|]|]; intros H; exact H. Qed.
+
+  Lemma V_into_obj s v : V (into_obj s) v = V s v.
+  Proof.
+    destruct s as [[|]|]; try reflexivity.
+    simpl into_obj. rewrite valid_SBool. unfold SAny. rewrite V_frag by reflexivity.
+    destruct v; reflexivity.
+  Qed.
+
+  (* ---- folding the allOf members in *)
+  Section Fold.
+    Variable mrg : schema -> schema -> mres schema.
+    Hypothesis Hm : forall x y, obj_frag tx x = true -> obj_frag tx y = true -> exok (mrg x y) x y.
+
+    Definition acc_ex (r : mres schema) (F : json -> bool) : Prop :=
+      match r with
+      | MOk m => obj_frag tx m = true /\ forall v, wf_json v = true -> V m v = F v
+      | MNever => forall v, wf_json v = true -> F v = false
+      | _ => True
+      end.
+
+    Lemma fold_exact l : forall acc F,
+      acc_ex acc F -> forallb (obj_frag tx) l = true ->
+      acc_ex (fold_left (fun a other => mbind a (fun s => mrg s other)) l acc)
+             (fun v => F v && forallb (fun s' => V s' v) l).
+    Proof.
+      induction l as [|s l IH]; intros acc F Hacc Hl.
+      - simpl. destruct acc; unfold acc_ex in *; try exact I.
+        + destruct Hacc as [H1 H2]. split; [exact H1|]. intros v Wv. rewrite andb_true_r. auto.
+        + intros v Wv. rewrite andb_true_r. auto.
+      - cbn [fold_left]. simpl in Hl. apply andb_true_iff in Hl. destruct Hl as [Hs Hl].
+        assert (Hstep : acc_ex (mbind acc (fun x => mrg x s)) (fun v => F v && V s v)).
+        { destruct acc as [x| | |]; unfold acc_ex, mbind in *; try exact I.
+          - destruct Hacc as [Fx Hx]. pose proof (Hm x s Fx Hs) as H. unfold ex_ok in H.
+            destruct (mrg x s); try exact I.
+            + destruct H as [H1 H2]. split; [exact H1|]. intros v Wv. rewrite (H2 v Wv), (Hx v Wv). reflexivity.
+            + intros v Wv. rewrite <- (Hx v Wv). apply H. exact Wv.
+          - intros v Wv. rewrite (Hacc v Wv). reflexivity. }
+        specialize (IH _ _ Hstep Hl).
+        destruct (fold_left (fun a other => mbind a (fun s0 => mrg s0 other)) l (mbind acc (fun x => mrg x s)));
+          unfold acc_ex in *; try exact I.
+        + destruct IH as [H1 H2]. split; [exact H1|]. intros v Wv. rewrite (H2 v Wv). simpl.
+          rewrite andb_assoc. reflexivity.
+        + intros v Wv. simpl. rewrite andb_assoc. apply IH. exact Wv.
+    Qed.
+
+    Lemma with_allof_exact so allo F :
+      acc_ex (MOk so) F -> opt_all (forallb (obj_frag tx)) allo = true ->
+      acc_ex (with_allof mrg so allo) (fun v => F v && opt_all (forallb (fun s' => V s' v)) allo).
+    Proof.
+      intros Hso Hl. destruct allo as [l|]; simpl.
+      - pose proof (fold_exact l _ _ Hso Hl) as H.
+        destruct (fold_left (fun acc other => mbind acc (fun s => mrg s other)) l (MOk so)); simpl; try exact I.
+        + destruct H as [H1 H2]. split; [apply frag_into_obj; exact H1|].
+          intros v Wv. rewrite V_into_obj. apply H2. exact Wv.
+        + exact H.
+      - destruct Hso as [H1 H2]. split; [exact H1|]. intros v Wv. rewrite andb_true_r. auto.
+    Qed.
+  End Fold.
+
+  (* ---- the enum filter keeps the instance set *)
+  Lemma enum_filter_frag m : obj_frag tx m = true -> obj_frag tx (enum_filter m) = true.
+  Proof.
+    destruct m as [b|ty fmt enum cst nv sv ik items ai mni mxi uq props req ap mnp mxp allo anyo oneo no ref d t];
+      [intros H; exact H|].
+    destruct enum as [ev|]; [|intros H; exact H].
+    intros H. pose proof (frag_shape _ _ _ _ _ _ _ _ _ _ _ _ _ _ _ _ _ _ _ _ _ _ _ _ H) as S.
+    destruct S as (-> & -> & -> & -> & -> & -> & -> & -> & -> & -> & -> & Nt & Se & Sc & Hn & Hs & G & U & Fp & Fap & Fal).
+    cbn [enum_filter obj_frag]. unfold arr_absent. rewrite Nt, Sc, Hn, Hs, G, U, Fp, Fap, Fal.
+    cbn [is_none negb andb].
+    assert (Hse : simple_enum (Some (filter (value_validate ty None cst) ev)) = true).
+    { simpl. apply forallb_forall. intros w Hw. apply filter_In in Hw. simpl in Se. rewrite forallb_forall in Se.
+      apply Se. apply Hw. }
+    rewrite Hse. reflexivity.
+  Qed.
+
+  Lemma enum_filter_exact_V m v : obj_frag tx m = true -> V (enum_filter m) v = V m v.
+  Proof.
+    destruct m as [b|ty fmt enum cst nv sv ik items ai mni mxi uq props req ap mnp mxp allo anyo oneo no ref d t];
+      [reflexivity|].
+    destruct enum as [ev|]; [|reflexivity].
+    intros H. pose proof (frag_shape _ _ _ _ _ _ _ _ _ _ _ _ _ _ _ _ _ _ _ _ _ _ _ _ H) as S.
+    destruct S as (-> & -> & -> & -> & -> & -> & -> & -> & -> & -> & -> & Nt & Se & Sc & Hn & Hs & G & U & Fp & Fap & Fal).
+    cbn [enum_filter]. rewrite !V_frag by assumption.
+    destruct (valid_type o ty v) eqn:Tv; [|reflexivity].
+    destruct (valid_const cst v) eqn:Cv; [|rewrite !andb_false_r; reflexivity].
+    unfold valid_enum at 1 2. unfold opt_all.
+    rewrite (enum_filter_exact o ty cst ev v Se Sc Tv Cv). reflexivity.
+  Qed.
+End ObjWhole.
+
+
+Section ObjThmExact.
+  Variable re_match : ustring -> ustring -> bool.
+  Variable fmt_ok : ustring -> ustring -> bool.
+  Variable o : vopts.
+  Variable DV : defs.
+  Variable n : nat.
+  Variable tx : itype.
+  Hypothesis Htx : tx_ok tx.
+  Variable D : defs.
+  Local Notation V := (Valid.validx re_match fmt_ok o DV n).
+  Local Notation exok := (ex_ok re_match fmt_ok o DV n tx).
+
+  Lemma merge_frag_eq f ty enum cst nv sv items props req ap mnp mxp allo d t
+        ty' enum' cst' nv' sv' items' props' req' ap' mnp' mxp' allo' d' t' :
+    merge D (S f)
+          (SObj ty None enum cst nv sv ItemsAbsent items None None None false props req ap mnp mxp allo
+                None None None None d t)
+          (SObj ty' None enum' cst' nv' sv' ItemsAbsent items' None None None false props' req' ap' mnp' mxp' allo'
+                None None None None d' t')
+    = match merge_ty ty ty' with
+      | None => MNever
+      | Some tym =>
+          mbind (merge_nv nv nv') (fun nvm =>
+          mbind (merge_sv sv sv') (fun svm =>
+          mbind (merge_obj (merge D f) (props, req, ap, mnp, mxp) (props', req', ap', mnp', mxp')) (fun om =>
+          mbind (merge_enum enum cst enum' cst') (fun em =>
+            let '(pm, rm, apm, mnpm, mxpm) := om in
+            mbind (with_allof (merge D f)
+                     (SObj tym None em None nvm svm ItemsAbsent items' None None None false pm rm apm mnpm mxpm None
+                           None None None None None None) allo) (fun m1 =>
+            mbind (with_allof (merge D f) m1 allo') (fun m2 => MOk (enum_filter m2)))))))
+      end.
+  Proof.
+    match goal with
+    | |- merge D (S f) ?A ?B = _ => transitivity (merge_so (merge D f) (roughly (S f)) A B); [reflexivity|]
+    end.
+    unfold merge_so, merge_fmt.
+    destruct (merge_ty ty ty'); [|reflexivity].
+    destruct (merge_nv nv nv'); cbn [mbind]; try reflexivity.
+    destruct (merge_sv sv sv'); cbn [mbind]; try reflexivity.
+    assert (Earr : merge_arr (merge D f) (ItemsAbsent, items, @None schema, @None N, @None N, false)
+                             (ItemsAbsent, items', @None schema, @None N, @None N, false)
+                   = MOk (ItemsAbsent, items', None, None, None, false)) by reflexivity.
+    rewrite Earr. cbn [mbind].
+    destruct (merge_obj (merge D f) (props, req, ap, mnp, mxp) (props', req', ap', mnp', mxp'))
+      as [[[[[pm rm] apm] mnm] mxm]| | |]; cbn [mbind]; try reflexivity.
+    destruct (merge_enum enum cst enum' cst') as [em| | |]; cbn [mbind]; try reflexivity.
+    rewrite with_subs_allof.
+    match goal with
+    | |- context [with_allof ?g ?b allo] => destruct (with_allof g b allo) as [m1| | |]
+    end; cbn [mbind]; try reflexivity.
+    rewrite with_subs_allof.
+    destruct (with_allof (merge D f) m1 allo') as [m2| | |]; cbn [mbind]; try reflexivity.
+    destruct m2 as [bb|t2 f2 e2 c2 n2 s2 ik2 it2 ai2 mni2 mxi2 uq2 p2 r2 ap2 mnp2 mxp2 al2 an2 on2 no2 ref2 d2 tt2];
+      [reflexivity|].
+    destruct e2; reflexivity.
+  Qed.
+
+  Theorem merge_frag_exact : forall f a b,
+    obj_frag tx a = true -> obj_frag tx b = true -> exok (merge D f a b) a b.
+  Proof.
+    induction f as [|f IH]; intros a b Fa Fb; [exact I|].
+    destruct a as [ba|ty fmt enum cst nv sv ik items ai mni mxi uq props req ap mnp mxp allo anyo oneo no ref d t].
+    { destruct ba; destruct b as [[|]|ty' fmt' enum' cst' nv' sv' ik' items' ai' mni' mxi' uq' props' req' ap' mnp' mxp' allo' anyo' oneo' no' ref' d' t'];
+        try (split; [assumption | intros v _; rewrite !valid_SBool; reflexivity]);
+        try (intros v _; rewrite !valid_SBool; reflexivity);
+        try (intros v _; rewrite valid_SBool; apply andb_false_r). }
+    destruct b as [[|]|ty' fmt' enum' cst' nv' sv' ik' items' ai' mni' mxi' uq' props' req' ap' mnp' mxp' allo' anyo' oneo' no' ref' d' t'].
+    { split; [assumption | intros v _; rewrite valid_SBool, andb_true_r; reflexivity]. }
+    { intros v _. rewrite valid_SBool. apply andb_false_r. }
+    pose proof (frag_shape tx _ _ _ _ _ _ _ _ _ _ _ _ _ _ _ _ _ _ _ _ _ _ _ _ Fa) as Sa.
+    pose proof (frag_shape tx _ _ _ _ _ _ _ _ _ _ _ _ _ _ _ _ _ _ _ _ _ _ _ _ Fb) as Sb.
+    destruct Sa as (-> & -> & -> & -> & -> & -> & -> & -> & -> & -> & -> & Nt & Se & Sc & Hn & Hs & Ga & Ua & Fp & Fap & Fal).
+    destruct Sb as (-> & -> & -> & -> & -> & -> & -> & -> & -> & -> & -> & Nt' & Se' & Sc' & Hn' & Hs' & Gb & Ub & Fp' & Fap' & Fal').
+    rewrite merge_frag_eq. unfold ex_ok.
+    pose proof (merge_obj_exact re_match fmt_ok o DV n tx (merge D f) IH
+                                props req ap mnp mxp props' req' ap' mnp' mxp' Fp Fp' Fap Fap' Ua Ub) as Hobj.
+    (* what the two bodies (without their allOf members) mean *)
+    set (A0 := fun v => valid_type o ty v && valid_enum enum v && valid_const cst v && valid_obj_local req mnp mxp v
+                        && match v with JObj kvs => valid_obj V props ap kvs | _ => true end).
+    set (B0 := fun v => valid_type o ty' v && valid_enum enum' v && valid_const cst' v && valid_obj_local req' mnp' mxp' v
+                        && match v with JObj kvs => valid_obj V props' ap' kvs | _ => true end).
+    set (LA := fun v => opt_all (forallb (fun s' => V s' v)) allo).
+    set (LB := fun v => opt_all (forallb (fun s' => V s' v)) allo').
+    assert (EA : forall v, V (SObj ty None enum cst nv sv ItemsAbsent [] None None None false props req ap mnp mxp allo
+                                    None None None None d t) v = A0 v && LA v).
+    { intros v. rewrite V_frag by assumption. reflexivity. }
+    assert (EB : forall v, V (SObj ty' None enum' cst' nv' sv' ItemsAbsent [] None None None false props' req' ap' mnp' mxp' allo'
+                                    None None None None d' t') v = B0 v && LB v).
+    { intros v. rewrite V_frag by assumption. reflexivity. }
+    pose proof (fun v => merge_ty_exact tx o ty ty' v Htx Nt Nt') as Hty.
+    destruct (merge_ty ty ty') as [tym|] eqn:Et.
+    - rewrite (merge_nv_none nv nv' Hn), (merge_sv_none sv sv' Hs). cbn [mbind].
+      destruct (merge_obj (merge D f) (props, req, ap, mnp, mxp) (props', req', ap', mnp', mxp'))
+        as [[[[[pm rm] apm] mnm] mxm]| | |]; cbn [mbind]; try exact I.
+      + destruct Hobj as (Fpm & Am & Upm & Habs & Hsem).
+        pose proof (fun v => merge_enum_exact enum cst enum' cst' v Se Sc Se' Sc') as Hen.
+        destruct (merge_enum enum cst enum' cst') as [em| | |] eqn:Ee; cbn [mbind]; try exact I.
+        * (* the merged body *)
+          set (body := SObj tym None em None nv' sv' ItemsAbsent [] None None None false pm rm apm mnm mxm None
+                            None None None None None None).
+          assert (Hbody : acc_ex re_match fmt_ok o DV n tx (MOk body) (fun v => A0 v && B0 v)).
+          { split.
+            - unfold body. cbn [obj_frag]. unfold arr_absent.
+              destruct (Hty JNull) as [Ntm _]. destruct (Hen JNull) as [Sem _].
+              rewrite Ntm, Sem, Hn', Hs', Upm, Fpm, Am. cbn [is_none negb andb opt_all].
+              assert (Hg : obj_absent pm rm apm mnm mxm || all_object tym = true).
+              { apply orb_true_iff in Ga. apply orb_true_iff in Gb. apply orb_true_iff.
+                destruct Ga as [Ga|Ga].
+                - destruct Gb as [Gb|Gb].
+                  + left. apply Habs; assumption.
+                  + right. eapply merge_ty_all_object; eauto.
+                - right. eapply merge_ty_all_object; eauto. }
+              rewrite Hg. reflexivity.
+            - intros v Wv. unfold body. rewrite V_frag by assumption.
+              destruct (Hty v) as [_ Tv]. destruct (Hen v) as [_ Ev].
+              unfold valid_const at 1. unfold valid_enum at 1. cbn [opt_all]. fold (enum_sem em v).
+              rewrite Tv, Ev. unfold A0, B0.
+              destruct v as [| | | | | |kvs]; try (simpl; btauto).
+              pose proof (Hsem kvs Wv) as Ho. unfold obool in Ho.
+              rewrite andb_true_r.
+              rewrite <- (andb_assoc _ (valid_obj_local rm mnm mxm (JObj kvs)) (valid_obj V pm apm kvs)).
+              rewrite Ho. btauto. }
+          pose proof (with_allof_exact re_match fmt_ok o DV n tx (merge D f) IH body allo _ Hbody Fal) as H1.
+          destruct (with_allof (merge D f) body allo) as [m1| | |]; cbn [mbind]; try exact I.
+          -- pose proof (with_allof_exact re_match fmt_ok o DV n tx (merge D f) IH m1 allo' _ H1 Fal') as H2.
+             destruct (with_allof (merge D f) m1 allo') as [m2| | |]; cbn [mbind]; try exact I.
+             ++ destruct H2 as [F2 S2]. split; [apply enum_filter_frag; exact F2|].
+                intros v Wv. rewrite (enum_filter_exact_V re_match fmt_ok o DV n tx m2 v F2), (S2 v Wv), EA, EB.
+                fold (LA v) (LB v).
+                destruct (A0 v), (B0 v), (LA v), (LB v); reflexivity.
+             ++ intros v Wv. rewrite EA, EB. specialize (H2 v Wv). cbv beta in H2.
+                fold (LA v) (LB v) in H2. destruct (A0 v), (B0 v), (LA v), (LB v); simpl in *; congruence.
+          -- intros v Wv. rewrite EA, EB. specialize (H1 v Wv). cbv beta in H1.
+             fold (LA v) in H1. destruct (A0 v), (B0 v), (LA v), (LB v); simpl in *; congruence.
+        * intros v Wv. rewrite EA, EB. specialize (Hen v). unfold A0, B0.
+          destruct (valid_enum enum v), (valid_const cst v), (valid_enum enum' v), (valid_const cst' v);
+            simpl in Hen; try discriminate Hen; rewrite ?andb_false_r; try reflexivity;
+            destruct (valid_type o ty v); simpl; rewrite ?andb_false_r; reflexivity.
+      + destruct Hobj as (Na_ & Nb_ & Hnev).
+        intros v Wv. rewrite EA, EB.
+        rewrite Na_ in Ga. simpl in Ga.
+        destruct (valid_type o ty v) eqn:Tv; [|unfold A0; rewrite Tv; reflexivity].
+        destruct (all_object_obj o ty v Ga Tv) as [kvs ->].
+        specialize (Hnev kvs Wv). unfold obool in Hnev. unfold A0, B0.
+        destruct (valid_obj_local req mnp mxp (JObj kvs)), (valid_obj V props ap kvs),
+          (valid_obj_local req' mnp' mxp' (JObj kvs)), (valid_obj V props' ap' kvs);
+          simpl in Hnev; try discriminate Hnev; rewrite ?andb_false_r; simpl; rewrite ?andb_false_r; reflexivity.
+    - intros v Wv. rewrite EA, EB. specialize (Hty v). unfold A0, B0.
+      destruct (valid_type o ty v), (valid_type o ty' v); simpl in Hty; try discriminate Hty;
+        simpl; rewrite ?andb_false_r; reflexivity.
+  Qed.
+End ObjThmExact.
+
+
+(* ---- the fragment has no `$ref`: validity does not depend on the definitions nor on the fuel *)
+Lemma obj_frag_ref_free tx : forall s, obj_frag tx s = true -> ref_free s = true.
+Proof.
+  induction s as [b|ty fmt enum cst nv sv ik items ai mni mxi uq props req ap mnp mxp allo anyo oneo no ref d t
+                    IHi IHai IHp IHap IHal IHan IHon IHno] using schema_ind'; [reflexivity|].
+  intros H. cbn [obj_frag] in H. unfold arr_absent in H.
+  repeat match goal with
+         | Hx : _ && _ = true |- _ => apply andb_true_iff in Hx; destruct Hx
+         end.
+  destruct items; [|simpl in *; congruence].
+  destruct ai; [simpl in *; congruence|].
+  destruct anyo; [simpl in *; congruence|].
+  destruct oneo; [simpl in *; congruence|].
+  destruct no; [simpl in *; congruence|].
+  destruct ref; [simpl in *; congruence|].
+  cbn [ref_free forallb opt_all andb].
+  assert (Hp : forallb (fun kv => ref_free (snd kv)) props = true).
+  { apply forallb_forall. intros kv Hin. rewrite Forall_forall in IHp. apply (IHp kv Hin).
+    match goal with Hf : forallb (fun kv => obj_frag tx (snd kv)) props = true |- _ =>
+      rewrite forallb_forall in Hf; apply Hf; exact Hin end. }
+  rewrite Hp.
+  assert (Hap : opt_all ref_free ap = true).
+  { destruct ap as [a|]; [|reflexivity]. simpl in *. apply IHap. assumption. }
+  rewrite Hap.
+  assert (Hal : opt_all (forallb ref_free) allo = true).
+  { destruct allo as [l|]; [|reflexivity]. simpl in *. apply forallb_forall. intros x Hin.
+    rewrite Forall_forall in IHal. apply (IHal x Hin).
+    match goal with Hf : forallb (obj_frag tx) l = true |- _ =>
+      rewrite forallb_forall in Hf; apply Hf; exact Hin end. }
+  rewrite Hal. reflexivity.
+Qed.
+
+Section ObjAllExact.
+  Variable re_match : ustring -> ustring -> bool.
+  Variable fmt_ok : ustring -> ustring -> bool.
+  Variable o : vopts.
+  Variable DV : defs.
+  Variable n : nat.
+  Variable tx : itype.
+  Hypothesis Htx : tx_ok tx.
+  Variable D : defs.
+  Variable f : nat.
+  Local Notation V := (Valid.validx re_match fmt_ok o DV n).
+  Local Notation accex := (acc_ex re_match fmt_ok o DV n tx).
+
+  (* merge_all is exact: Ok m => the instances of m are exactly those of all members; never => there is none *)
+  Theorem merge_all_frag_exact L :
+    L <> [] -> forallb (obj_frag tx) L = true ->
+    accex (merge_all D f L) (fun v => forallb (fun s => V s v) L).
+  Proof.
+    intros Hne HF. destruct L as [|a [|b rest]]; [congruence| |].
+    - simpl in HF. rewrite andb_true_r in HF. cbn [merge_all]. split; [exact HF|].
+      intros v _. simpl. rewrite andb_true_r. reflexivity.
+    - cbn [merge_all]. simpl in HF. apply andb_true_iff in HF. destruct HF as [Ha HF].
+      apply andb_true_iff in HF. destruct HF as [Hb HF].
+      pose proof (merge_frag_exact re_match fmt_ok o DV n tx Htx D f a b Ha Hb) as H0.
+      assert (Hacc : accex (merge D f a b) (fun v => V a v && V b v)).
+      { unfold ex_ok in H0. unfold acc_ex. destruct (merge D f a b); try exact I; exact H0. }
+      pose proof (fold_exact re_match fmt_ok o DV n tx (merge D f)
+                             (merge_frag_exact re_match fmt_ok o DV n tx Htx D f) rest _ _ Hacc HF) as H.
+      destruct (fold_left (fun acc s => mbind acc (fun o0 => merge D f o0 s)) rest (merge D f a b));
+        unfold acc_ex in *; try exact I.
+      + destruct H as [H1 H2]. split; [exact H1|]. intros v Wv. rewrite (H2 v Wv). simpl.
+        rewrite andb_assoc. reflexivity.
+      + intros v Wv. simpl. rewrite andb_assoc. apply H. exact Wv.
+  Qed.
+
+  (* the instance set of a merge_all outcome; never = the empty set *)
+  Definition inst_set (r : mres schema) (v : json) : bool :=
+    match r with MOk m => V m v | _ => false end.
+  Definition defined (r : mres schema) : bool :=
+    match r with MOk _ | MNever => true | _ => false end.
+
+  Lemma merge_all_inst L v :
+    L <> [] -> forallb (obj_frag tx) L = true -> defined (merge_all D f L) = true -> wf_json v = true ->
+    inst_set (merge_all D f L) v = forallb (fun s => V s v) L.
+  Proof.
+    intros Hne HF Hd Wv. pose proof (merge_all_frag_exact L Hne HF) as H.
+    destruct (merge_all D f L); simpl in *; try discriminate Hd.
+    - apply H. exact Wv.
+    - symmetry. apply H. exact Wv.
+  Qed.
+
+  (* order independence at full strength on the fragment: every permutation of the list merges to the same
+     instance set (semantic equality; the schemas themselves may differ) *)
+  Theorem merge_all_perm_equiv_frag L L' v :
+    Permutation L L' -> forallb (obj_frag tx) L = true ->
+    defined (merge_all D f L) = true -> defined (merge_all D f L') = true -> wf_json v = true ->
+    inst_set (merge_all D f L) v = inst_set (merge_all D f L') v.
+  Proof.
+    intros HP HF D1 D2 Wv.
+    assert (HF' : forallb (obj_frag tx) L' = true) by (rewrite <- (forallb_perm _ _ _ HP); exact HF).
+    destruct L as [|a L0].
+    - apply Permutation_nil in HP. subst L'. reflexivity.
+    - assert (Hne' : L' <> []).
+      { intros ->. apply Permutation_sym in HP. apply Permutation_nil in HP. discriminate HP. }
+      rewrite (merge_all_inst (a :: L0) v), (merge_all_inst L' v); try assumption; try discriminate.
+      apply forallb_perm. exact HP.
+  Qed.
+End ObjAllExact.
+
+(* ---- the same statements with Spec/Valid.v's [Valid] (definite evaluation at some fuel) *)
+Section ObjValid.
+  Variable re_match : ustring -> ustring -> bool.
+  Variable fmt_ok : ustring -> ustring -> bool.
+  Variable DV : defs.
+  Variable tx : itype.
+  Hypothesis Htx : tx_ok tx.
+  Variable D : defs.
+  Local Notation Valid := (Valid.Valid re_match fmt_ok DV).
+
+  Lemma Valid_ref_free s v :
+    ref_free s = true -> (Valid s v <-> Valid.validx re_match fmt_ok draft07 DV 0 s v = true).
+  Proof.
+    intros R. unfold Valid.Valid, Validx. split.
+    - intros [k [Hd Hv]].
+      destruct (valid_fuel_stable re_match fmt_ok draft07 DV 0 k s v (Nat.le_0_l k)
+                  (definitex_ref_free draft07 DV 0 s v R)) as [_ E].
+      rewrite <- E. exact Hv.
+    - intros H. exists 0. split; [apply definitex_ref_free; exact R | exact H].
+  Qed.
+
+  Theorem merge_frag_exact_Valid f a b m v :
+    obj_frag tx a = true -> obj_frag tx b = true -> merge D f a b = MOk m -> wf_json v = true ->
+    (Valid m v <-> Valid a v /\ Valid b v).
+  Proof.
+    intros Fa Fb E Wv.
+    pose proof (merge_frag_exact re_match fmt_ok draft07 DV 0 tx Htx D f a b Fa Fb) as H.
+    rewrite E in H. destruct H as [Fm Hm].
+    rewrite (Valid_ref_free m v (obj_frag_ref_free tx m Fm)),
+            (Valid_ref_free a v (obj_frag_ref_free tx a Fa)),
+            (Valid_ref_free b v (obj_frag_ref_free tx b Fb)).
+    rewrite (Hm v Wv), andb_true_iff. tauto.
+  Qed.
+
+  Theorem merge_frag_never_Valid f a b v :
+    obj_frag tx a = true -> obj_frag tx b = true -> merge D f a b = MNever -> wf_json v = true ->
+    ~ (Valid a v /\ Valid b v).
+  Proof.
+    intros Fa Fb E Wv.
+    pose proof (merge_frag_exact re_match fmt_ok draft07 DV 0 tx Htx D f a b Fa Fb) as H.
+    rewrite E in H. specialize (H v Wv).
+    rewrite (Valid_ref_free a v (obj_frag_ref_free tx a Fa)), (Valid_ref_free b v (obj_frag_ref_free tx b Fb)).
+    intros [H1 H2]. rewrite H1, H2 in H. discriminate H.
+  Qed.
+End ObjValid.
+
+(* ---- statements in the form used by Props/C09.v *)
+Theorem merge_sound_obj re_match fmt_ok o DV n tx D f a b m :
+  tx_ok tx -> obj_frag tx a = true -> obj_frag tx b = true -> merge D f a b = MOk m ->
+  obj_frag tx m = true /\
+  forall v, wf_json v = true ->
+            validx re_match fmt_ok o DV n m v = validx re_match fmt_ok o DV n a v && validx re_match fmt_ok o DV n b v.
+Proof.
+  intros Htx Fa Fb E. pose proof (merge_frag_exact re_match fmt_ok o DV n tx Htx D f a b Fa Fb) as H.
+  rewrite E in H. exact H.
+Qed.
+
+Theorem merge_never_obj re_match fmt_ok o DV n tx D f a b :
+  tx_ok tx -> obj_frag tx a = true -> obj_frag tx b = true -> merge D f a b = MNever ->
+  forall v, wf_json v = true ->
+            validx re_match fmt_ok o DV n a v && validx re_match fmt_ok o DV n b v = false.
+Proof.
+  intros Htx Fa Fb E. pose proof (merge_frag_exact re_match fmt_ok o DV n tx Htx D f a b Fa Fb) as H.
+  rewrite E in H. exact H.
+Qed.
+
+(* non-vacuity: nested objects, required, a closed member, an additionalProperties schema, an allOf member *)
+Definition ex_inner_a : schema :=
+  obj_of [([120%N], ty_only [TInteger]); ([121%N], ty_only [TString])] [[120%N]] None.
+Definition ex_inner_b : schema :=
+  obj_of [([120%N], ty_only [TInteger; TNull])] [] (Some (SBool false)).
+Definition ex_a : schema :=
+  obj_of [([97%N], ty_only [TString]); ([110%N], ex_inner_a)] [[97%N]] (Some (ty_only [TInteger])).
+Definition ex_b : schema :=
+  SObj (Some [TObject]) None None None numv_none strv_none ItemsAbsent [] None None None false
+       [([98%N], ty_only [TInteger]); ([110%N], ex_inner_b)] [[110%N]] None None None
+       (Some [obj_of [] [[98%N]] None]) None None None None None None.
+Definition ex_closed : schema := obj_of [([98%N], ty_only [TInteger])] [] (Some (SBool false)).
+
+Definition ex_v_ok : json :=
+  JObj [([97%N], JStr [104%N]); ([98%N], JInt 3); ([110%N], JObj [([120%N], JInt 1)])].
+Definition ex_v_bad1 : json :=   (* inner member y is forbidden by the closed inner_b *)
+  JObj [([97%N], JStr [104%N]); ([98%N], JInt 3); ([110%N], JObj [([120%N], JInt 1); ([121%N], JStr [])])].
+Definition ex_v_bad2 : json :=   (* b must be an integer both as b's property and under a's additionalProperties *)
+  JObj [([97%N], JStr [104%N]); ([98%N], JStr []); ([110%N], JObj [([120%N], JInt 1)])].
+
+Lemma obj_exact_example :
+  obj_frag TNumber ex_a = true /\ obj_frag TNumber ex_b = true /\
+  exists m, merge [] 6 ex_a ex_b = MOk m /\ obj_frag TNumber m = true
+            /\ Vd [] 0 m ex_v_ok = true /\ Vd [] 0 ex_a ex_v_ok = true /\ Vd [] 0 ex_b ex_v_ok = true
+            /\ Vd [] 0 m ex_v_bad1 = false /\ Vd [] 0 ex_b ex_v_bad1 = false
+            /\ Vd [] 0 m ex_v_bad2 = false /\ Vd [] 0 ex_b ex_v_bad2 = false
+            /\ wf_json ex_v_ok = true.
+Proof. split; [reflexivity|]. split; [reflexivity|]. eexists. vm_compute. repeat split. Qed.
+
+Lemma obj_never_example :
+  obj_frag TNumber ex_a = true /\ obj_frag TNumber ex_closed = true /\ merge [] 6 ex_a ex_closed = MNever.
+Proof. vm_compute. repeat split. Qed.
+
+Lemma obj_perm_example :
+  exists m m', merge_all [] 8 [ex_a; ex_b; ty_only [TObject]] = MOk m
+               /\ merge_all [] 8 [ty_only [TObject]; ex_b; ex_a] = MOk m'
+               /\ Vd [] 0 m ex_v_ok = true /\ Vd [] 0 m' ex_v_ok = true
+               /\ Vd [] 0 m ex_v_bad1 = false /\ Vd [] 0 m' ex_v_bad1 = false.
+Proof. eexists. eexists. vm_compute. repeat split. Qed.
